@@ -102,6 +102,13 @@ class Part:
             if rank is not None and (ent[3] is None or rank < ent[3]):
                 ent[1], ent[2], ent[3] = detail, jsonable(case), rank
 
+    def state(self, key: Any) -> None:
+        """Record a canonical (abstract) state visited; distinct ones are counted into coverage.states."""
+        st = self.extra.get("state_hashes")
+        if st is None:
+            st = self.extra["state_hashes"] = set()
+        st.add(int.from_bytes(hashlib.blake2b(repr(key).encode(), digest_size=8).digest(), "big"))
+
     def sample(self, case: Any) -> None:
         if len(self.samples) < MAX_SAMPLES:
             self.samples.append(jsonable(case))
@@ -232,6 +239,9 @@ def load_findings() -> list[dict[str, Any]]:
 def finish(ctx: Ctx, mod: Any) -> int:
     """Print VIOLATION / KNOWN-FINDING lines, write evidence, return the exit code."""
     total = ctx.total
+    if "state_hashes" in total.extra:
+        st = total.extra.pop("state_hashes")
+        total.states = max(total.states, len(st))
     wall = time.time() - ctx.t0
     herr = total.extra.get("harness_errors")
     known = {f["signature"]: f for f in load_findings() if f["property"] == ctx.pid and f.get("status") == "open"}
